@@ -1213,6 +1213,17 @@ class Process(StateMachine, persistence.Savable, metaclass=ProcessStateMachineMe
                 self._interrupt_action.cookie.void = True  # type: ignore[attr-defined]
         self._interrupt_action = new_action
 
+    def _run_interrupt_action(self, next_state: Optional[process_states.State]) -> None:
+        """Carry out the pending interrupt action.
+
+        It is detached first, such that a request made by a hook or listener during its transition does not cancel the
+        action that is running, and its interruption, if still under way, is void from now on."""
+        action = cast(futures.CancellableAction, self._interrupt_action)
+        self._interrupt_action = None
+        if isinstance(action.cookie, process_states.Interruption):
+            action.cookie.void = True  # type: ignore[attr-defined]
+        action.run(next_state)
+
     def _set_interrupt_action_from_exception(self, interrupt_exception: process_states.Interruption) -> None:
         """Set an interrupt action from the corresponding interrupt exception"""
         action = self._create_interrupt_action(interrupt_exception)
@@ -1390,10 +1401,14 @@ class Process(StateMachine, persistence.Savable, metaclass=ProcessStateMachineMe
                 self._set_interrupt_action(None)
 
             if self._interrupt_action:
-                self._interrupt_action.run(next_state)
+                self._run_interrupt_action(next_state)
             else:
                 # Everything nominal so transition to the next state
                 self.transition_to(next_state)
+
+            # A request made by a hook or listener during that transition is carried out before the step ends
+            while self._interrupt_action is not None and not self.has_terminated():
+                self._run_interrupt_action(None)
 
         finally:
             self._stepping = False
